@@ -289,7 +289,9 @@ TOKCFGS = [
         # a span token whose opening group has no synonym: the group name itself is the grammar's terminal
         r"(?P<SPACE>\s+)|(?P<TEXT>''')|(?P<W>[a-z]+)|(?P<EQ>=)",
         ['TEXT', 'WORD', '='],
-        {'TEXT': ["'''x y'''", "''''''", "'''p\nq = r'''", "''' '' '''"], 'WORD': ['a', 'bc'], '=': ['=']},
+        {'TEXT': ["'''x y'''", "''''''", "'''p\nq = r'''", "''' '' '''",
+                  # empty lines inside the token, a line break right behind the opener / in front of the closer
+                  "'''p\n\nq'''", "'''\nx'''", "'''x\n\n'''", "'''\n'''"], 'WORD': ['a', 'bc'], '=': ['=']},
         [" ", "\n", "  "],
         synonyms={'W': 'WORD', 'EQ': '='},
         span_matchers={'TEXT': r"(?P<END_TEXT>(.|\n)*?)'''"},
@@ -318,7 +320,8 @@ TOKCFGS = [
         # the multi-line token is called STRING; what the pattern calls STRING (a one-line literal) is called str
         r"""(?P<SPACE>\s+)|(?P<ML>''')|(?P<STRING>"[^"]*")|(?P<W>[a-z]+)|(?P<EQ>=)""",
         ['STRING', 'str', 'WORD', '='],
-        {'STRING': ["'''x y'''", "''''''", "'''p\nq = r'''"], 'str': ['"a"', '""', '"b c"'], 'WORD': ['a', 'bc'],
+        {'STRING': ["'''x y'''", "''''''", "'''p\nq = r'''", "'''p\n\n\nq'''", "'''\nx\n'''"],
+         'str': ['"a"', '""', '"b c"'], 'WORD': ['a', 'bc'],
          '=': ['=']},
         [" ", "\n", "  "],
         synonyms={'ML': 'STRING', 'STRING': 'str', 'W': 'WORD', 'EQ': '='},
